@@ -15,7 +15,7 @@ RULE = ("decoders: 12 unmarshall_datain (INQUIRY standard and every VPD page, MO
         "(<= 200 bytes) and all-00 / all-FF / 00..FF-ramp buffers of every length 0..64. Deviations: every byte position x all 256 values "
         "(first 48 bytes; {00,01,7F,80,FF} beyond); every pair of positions among the first 12 bytes (thorough: 24) x {00,01,7F,80,FF}^2; every "
         "truncation length. buffers of 65560 and 70001 bytes (00 / FF, long well-formed lists for GET LBA STATUS, REPORT LUNS, READ KEYS, VPD pages of FFFCh bytes) with header corruptions. Budget: 2000 + 1000 x len(buffer) (300 per byte beyond 4 KiB) traced source lines inside /repo/pyscsi; exceeding it is the violation. "
-        "Facade level: 6 methods x 10 endless device behaviours (UNIT ATTENTION alternating / never twice the same, BUSY, NOT READY, TASK SET FULL, RESERVATION CONFLICT, ACA ACTIVE, CHECK CONDITION without sense, deferred errors, GOOD with ever-changing garbage) x both transports: each call ends within 16 submissions and 400 000 lines. Retention: every decoder x ~30 answers (well-formed, constant, bad lengths, truncated) decoded 40 times each with the results and errors dropped: none of the input buffers may stay alive. Non-trivial = buffer differs from the well-formed base; distinct = distinct (decoder, buffer).")
+        "READ ELEMENT STATUS answers whose descriptors refer to one another (all 625 source assignments among four elements x 2 element types). Facade level: 6 methods x 10 endless device behaviours (UNIT ATTENTION alternating / never twice the same, BUSY, NOT READY, TASK SET FULL, RESERVATION CONFLICT, ACA ACTIVE, CHECK CONDITION without sense, deferred errors, GOOD with ever-changing garbage) x both transports: each call ends within 16 submissions and 400 000 lines. Retention: every decoder x ~30 answers (well-formed, constant, bad lengths, truncated) decoded 40 times each with the results and errors dropped: none of the input buffers may stay alive. Non-trivial = buffer differs from the well-formed base; distinct = distinct (decoder, buffer).")
 ASSUMPTIONS = [
     "work is measured in executed Python source lines inside the library (sys.settrace); the budget 2000 + 1000 lines per buffer byte is about 5x the worst terminating cost measured (READ ELEMENT STATUS with a hostile descriptor length of 1: ~200 lines per byte); evidence key max_lines_within_budget reports the measured maxima per decoder",
     "returning or raising any ordinary exception within the budget is acceptable; memory is not measured separately (the decoders only slice the buffer they are given)",
@@ -197,6 +197,17 @@ def base_buffers(name):
     for n in (65560, 70001):
         out.append(("big", bytes(n)))
         out.append(("big", b"\xff" * n))
+    if name == "res":
+        # descriptors that refer to one another (SOURCE STORAGE ELEMENT ADDRESS with SVALID): every assignment of sources among four
+        # data transfer elements (each names one of the four, itself included, or an element that is not in the answer) - chains, self
+        # references and cycles a decoder that follows the references must survive
+        import itertools
+        from vf.spec import responses as R
+        addrs = [0x100, 0x101, 0x102, 0x103]
+        for srcs in itertools.product(addrs + [0x400], repeat=4):
+            for etype in (4, 3):
+                descs = [{"element_address": a, "full": 1, "access": 1, "svalid": 1, "source_storage_element_address": s_} for a, s_ in zip(addrs, srcs)]
+                out.append(("linked", R.read_element_status(0x100, 4, [(etype, 0, 0, descs)])))
     if name == "getlbastatus":
         from vf.spec import responses as R
         out.append(("big", R.get_lba_status([{"lba": 16 * i, "num_blocks": 16, "p_status": i % 3} for i in range(4200)])))
@@ -437,6 +448,8 @@ def _explore(name, chunk, nchunks, span, do):
         if bi % nchunks != chunk:
             continue
         do(base, kind != "wellformed")
+        if kind == "linked":
+            continue
         if kind == "big":
             # (single-byte corruptions of the header only: the first 8 bytes x {00,01,FF})
             if len(base) != 70001:
